@@ -11,10 +11,12 @@ import (
 	"runtime"
 	"strings"
 	"testing"
+	"time"
 )
 
 type vhWitness struct {
 	Vector  []string `json:"vector"`
+	Sched   []int    `json:"sched"`
 	Obs     []string `json:"obs"`
 	Outcome string   `json:"outcome"`
 }
@@ -34,17 +36,48 @@ type vhResult struct {
 	Label   string   `json:"label,omitempty"`
 }
 
-func vhRunOne(fn func([]int), params []int, vec []string) (outcome, detail string, obs []string, label string) {
+func vhRunOne(fn func([]int), params []int, vec []string, sched []int, useSched bool) (outcome, detail string, obs []string, label string) {
 	vhVec, vhPos, vhObs, vhLabel, vhReach = vec, 0, nil, "", nil
 	vhResetGlobals()
+	if vhSchedSet != nil {
+		if useSched {
+			if sched == nil {
+				sched = []int{}
+			}
+			vhSchedSet(sched)
+		} else {
+			vhSchedSet(nil)
+		}
+	}
+	// run the harness under a watchdog: a deadlocked harness goroutine is
+	// abandoned and reported as "timeout"
+	type result struct{ outcome, detail string }
+	done := make(chan result, 1)
+	go func() {
+		oc, dt := vhRunGuarded(fn, params)
+		done <- result{oc, dt}
+	}()
+	select {
+	case r := <-done:
+		return r.outcome, r.detail, vhObs, vhLabel
+	case <-time.After(vhWatchdog):
+		return "timeout", "harness did not return within the watchdog period (deadlock?)", nil, vhLabel
+	}
+}
+
+var vhWatchdog = 8 * time.Second
+
+func vhRunGuarded(fn func([]int), params []int) (outcome, detail string) {
 	defer func() {
-		obs, label = vhObs, vhLabel
 		if r := recover(); r != nil {
 			switch p := r.(type) {
 			case vhAssertFail:
 				outcome = "assert:" + p.id
 			case vhAssumeFail:
 				outcome = "assume"
+			case vhSchedMismatch:
+				outcome = "sched-mismatch"
+				detail = p.msg
 			default:
 				outcome = "panic"
 				buf := make([]byte, 8192)
@@ -54,7 +87,7 @@ func vhRunOne(fn func([]int), params []int, vec []string) (outcome, detail strin
 		}
 	}()
 	fn(params)
-	return "ok", "", nil, ""
+	return "ok", ""
 }
 
 func vhTrimStack(s string) string {
@@ -98,13 +131,13 @@ func TestVerifReplay(t *testing.T) {
 			if race {
 				vhRaceMode = true
 				ok := t.Run(fmt.Sprintf("w%d_%d", ci, wi), func(st *testing.T) {
-					oc, detail, obs, label = vhRunOne(fn, c.Params, w.Vector)
+					oc, detail, obs, label = vhRunOne(fn, c.Params, w.Vector, nil, false)
 				})
 				if !ok && oc == "ok" {
 					oc = "race"
 				}
 			} else {
-				oc, detail, obs, label = vhRunOne(fn, c.Params, w.Vector)
+				oc, detail, obs, label = vhRunOne(fn, c.Params, w.Vector, w.Sched, os.Getenv("VERIF_SCHED") == "1")
 			}
 			results = append(results, vhResult{Case: ci, Witness: wi, Outcome: oc, Obs: obs, Detail: detail, Label: label})
 		}
